@@ -1119,7 +1119,8 @@ class VM:
                 return obj._element_size
             if key_str == "buffer":
                 # Return the underlying buffer if it exists
-                return getattr(obj, "_buffer", UNDEFINED)
+                buffer = getattr(obj, "_buffer", None)
+                return buffer if buffer is not None else UNDEFINED
             # Built-in typed array methods
             typed_array_methods = ["toString", "join", "subarray", "set"]
             if key_str in typed_array_methods:
